@@ -145,7 +145,22 @@ def accessorOp (j : Json) : Except String Res := do
   let aloneOk : Bool := match j.getObjVal? "alone" with
     | .ok a => a == impl
     | .error _ => true
-  pure { r with preds := r.preds ++ [("empty_string_is_absent", absentOk), ("string_sanitised_nonempty", stringOk),
+  -- the property fixes the answer completely (Props/C17: per-accessor classification theorems about
+  -- the model's accessors, the parsers' verdicts being the real libraries'): which of the three
+  -- kinds of answer, and the value
+  let errOf (x : Json) : Option String := match x.getObjVal? "err" with
+    | .ok (Json.str e) => some e
+    | _ => none
+  let shaped (x : Json) : Bool := (errOf x).isSome || (x.getObjVal? "ok").toOption.isSome
+  let absentIff : Bool := !shaped impl || ((errOf impl == some "absent") == (errOf r.model == some "absent"))
+  let wrongIff : Bool := !shaped impl || ((errOf impl == some "wrong") == (errOf r.model == some "wrong"))
+  let valueOk : Bool := match impl.getObjVal? "ok", r.model.getObjVal? "ok" with
+    | .ok a, .ok b => a == b
+    | _, _ => true
+  pure { r with preds := r.preds ++ [("absent_exactly_when_missing_null_or_empty", absentIff),
+                                      ("wrong_exactly_when_other_type_or_unparseable", wrongIff),
+                                      ("returned_value_is_the_json_value", valueOk),
+                                      ("empty_string_is_absent", absentOk), ("string_sanitised_nonempty", stringOk),
                                       ("answer_independent_of_earlier_accessors", aloneOk),
                                       ("media_type_is_token_slash_token", mediaOk)] }
 
